@@ -41,6 +41,16 @@ type SxEnv struct {
 	// the facts compared by rules stay small.
 	Alias    map[ssa.Value]string
 	busyCell map[*ssa.Alloc]bool
+	// InlinePure (opt-in) renders a call of an unexported, single-block, side-effect free fq
+	// function with one result as the expression it returns (see sxInlinable), so that extracting
+	// such a helper out of an anchored function does not change the canonical forms.
+	InlinePure bool
+	// KeepNarrowing (opt-in) keeps integer conversions to a narrower type visible as (conv T x):
+	// they truncate, so they are not value preserving (int/uint count as 64 bits wide); left shifts
+	// in a type narrower than 64 bits are marked (<<32 ..), and a[:n] is rendered as a[0:n].
+	KeepNarrowing bool
+	NoInline      func(*ssa.Function) bool
+	inlineDepth   int
 }
 
 // ResetMemo must be called after changing Alias.
@@ -117,7 +127,7 @@ func (e *SxEnv) poly(v ssa.Value) *Poly {
 			}
 		}
 	case *ssa.Convert:
-		if sxIsInt(x.Type()) && sxIsInt(x.X.Type()) {
+		if sxIsInt(x.Type()) && sxIsInt(x.X.Type()) && !(e.KeepNarrowing && sxNarrows(x.X.Type(), x.Type())) {
 			return e.poly(x.X)
 		}
 	case *ssa.ChangeType:
@@ -134,7 +144,7 @@ func (e *SxEnv) poly(v ssa.Value) *Poly {
 			case token.MUL:
 				return e.poly(x.X).Mul(e.poly(x.Y))
 			case token.SHL:
-				if c, ok := bvConstShift(x.Y); ok && c < 62 {
+				if c, ok := bvConstShift(x.Y); ok && c < 62 && !(e.KeepNarrowing && sxIntWidth(x.Type()) < 64) {
 					if _, isC := x.X.(*ssa.Const); !isC {
 						return e.poly(x.X).MulC(1 << uint(c))
 					}
@@ -202,7 +212,7 @@ func (e *SxEnv) of(v ssa.Value) string {
 	case *ssa.Builtin:
 		return "builtin:" + x.Name()
 	case *ssa.Convert:
-		if sxIsInt(x.Type()) && sxIsInt(x.X.Type()) {
+		if sxIsInt(x.Type()) && sxIsInt(x.X.Type()) && !(e.KeepNarrowing && sxNarrows(x.X.Type(), x.Type())) {
 			return e.Of(x.X)
 		}
 		return "(conv " + types.TypeString(x.Type(), sxQual) + " " + e.Of(x.X) + ")"
@@ -218,7 +228,7 @@ func (e *SxEnv) of(v ssa.Value) string {
 			case token.ADD, token.SUB, token.MUL:
 				return e.poly(x).String()
 			case token.SHL:
-				if c, ok := bvConstShift(x.Y); ok && c < 62 {
+				if c, ok := bvConstShift(x.Y); ok && c < 62 && !(e.KeepNarrowing && sxIntWidth(x.Type()) < 64) {
 					if _, isC := x.X.(*ssa.Const); !isC {
 						return e.poly(x).String()
 					}
@@ -226,6 +236,10 @@ func (e *SxEnv) of(v ssa.Value) string {
 			}
 		}
 		a, b := e.Of(x.X), e.Of(x.Y)
+		if x.Op == token.SHL && e.KeepNarrowing && sxIsInt(x.Type()) && sxIntWidth(x.Type()) < 64 {
+			// a left shift in a type narrower than 64 bits drops the bits shifted beyond it
+			return "(<<" + strconv.Itoa(sxIntWidth(x.Type())) + " " + a + " " + b + ")"
+		}
 		op := x.Op
 		switch op {
 		case token.LSS:
@@ -262,7 +276,11 @@ func (e *SxEnv) of(v ssa.Value) string {
 	case *ssa.Index:
 		return "(idx " + e.Of(x.X) + " " + e.Of(x.Index) + ")"
 	case *ssa.Slice:
-		return "(slice " + e.Of(x.X) + " " + e.Of(x.Low) + " " + e.Of(x.High) + " " + e.Of(x.Max) + ")"
+		lo := e.Of(x.Low)
+		if x.Low == nil && e.KeepNarrowing {
+			lo = "0" // a[:n] is a[0:n]
+		}
+		return "(slice " + e.Of(x.X) + " " + lo + " " + e.Of(x.High) + " " + e.Of(x.Max) + ")"
 	case *ssa.Alloc:
 		return "alloc:" + types.TypeString(x.Type().Underlying().(*types.Pointer).Elem(), sxQual)
 	case *ssa.MakeSlice:
@@ -399,6 +417,8 @@ func (e *SxEnv) call(cc *ssa.CallCommon) string {
 	} else if f := cc.StaticCallee(); f != nil {
 		if _, isClosure := cc.Value.(*ssa.MakeClosure); isClosure {
 			parts = append(parts, "callclosure", e.Of(cc.Value))
+		} else if s, ok := e.inlined(f, cc.Args); ok {
+			return s
 		} else {
 			parts = append(parts, "call", sxShortCallee(f))
 		}
@@ -422,6 +442,7 @@ func (e *SxEnv) call(cc *ssa.CallCommon) string {
 // its own parameters named q0.., free variables resolved through the bindings.
 func (e *SxEnv) lambda(fn *ssa.Function, bindings []ssa.Value) string {
 	sub := &SxEnv{Fn: fn, prefix: e.prefix + "q", memo: map[ssa.Value]string{}, MaxSize: e.MaxSize, penv: e, bind: map[*ssa.FreeVar]ssa.Value{}}
+	sub.InlinePure, sub.KeepNarrowing, sub.NoInline = e.InlinePure, e.KeepNarrowing, e.NoInline
 	if e.prefix != "p" {
 		sub.prefix = e.prefix + "q"
 	} else {
@@ -455,6 +476,7 @@ func (e *SxEnv) SubEnv(mc *ssa.MakeClosure) *SxEnv {
 // literal that captures nothing, which go/ssa represents as a plain *ssa.Function).
 func (e *SxEnv) SubEnvFn(fn *ssa.Function, bindings []ssa.Value) *SxEnv {
 	sub := &SxEnv{Fn: fn, prefix: "q", memo: map[ssa.Value]string{}, MaxSize: e.MaxSize, penv: e, bind: map[*ssa.FreeVar]ssa.Value{}}
+	sub.InlinePure, sub.KeepNarrowing, sub.NoInline = e.InlinePure, e.KeepNarrowing, e.NoInline
 	for i, fv := range fn.FreeVars {
 		if i < len(bindings) {
 			sub.bind[fv] = bindings[i]
@@ -1049,3 +1071,22 @@ func (e *SxEnv) AffineBounds(gs []Guard, atom string) (lo, hi *int64) {
 	}
 	return
 }
+
+// sxIntWidth: bit width of an integer type, int/uint/uintptr counted as 64.
+func sxIntWidth(t types.Type) int {
+	b, ok := t.Underlying().(*types.Basic)
+	if !ok {
+		return 64
+	}
+	switch b.Kind() {
+	case types.Int8, types.Uint8:
+		return 8
+	case types.Int16, types.Uint16:
+		return 16
+	case types.Int32, types.Uint32:
+		return 32
+	}
+	return 64
+}
+
+func sxNarrows(from, to types.Type) bool { return sxIntWidth(to) < sxIntWidth(from) }
